@@ -145,7 +145,18 @@ func loadAll(c caseT) {
 		journal.WriteAt(rec, 0)
 	}
 	guard(c, "NewConfig", func() { store.NewConfig(root) })
-	guard(c, "NewIndex", func() { store.NewIndex(root) })
+	guard(c, "NewIndex+lookups", func() {
+		idx, err := store.NewIndex(root)
+		if err != nil || idx == nil {
+			return
+		}
+		// what every path-taking command does next with a staging area that loaded
+		for _, q := range []string{"a", "d", "d/x", "k", "zz", ""} {
+			idx.GetEntry([]byte(q))
+			idx.IsRegisteredAsDirectory(q)
+			idx.GetEntriesByDirectory(q)
+		}
+	})
 	var head *store.Head
 	var refs *store.Refs
 	guard(c, "NewHead", func() { head, _ = store.NewHead(root) })
